@@ -52,8 +52,8 @@ func TryBuildPrefix(name string, opts minichain.Opts, n uint32, custom func(h ui
 	params := opts.Params
 	p := &Prefix{Dir: ev.Scratch(name + "-prefix"), Params: params, Named: map[string]OP{}, Opts: opts}
 	e := minichain.Open(p.Dir, &p.Opts)
-	p.Model = refchain.New(params, minichain.GenesisHash, minichain.GenesisTime, minichain.PowBits)
-	prev := minichain.GenesisHash
+	p.Model = refchain.New(params, minichain.GenesisFor(params.Net), minichain.GenesisTime, minichain.PowBits)
+	prev := minichain.GenesisFor(params.Net)
 	p.Cb = make([]OP, n+1)
 	for h := uint32(1); h <= n; h++ {
 		s := minichain.Spec{Prev: prev, Height: h, CbValue: -1}
@@ -62,7 +62,11 @@ func TryBuildPrefix(name string, opts minichain.Opts, n uint32, custom func(h ui
 		}
 		if s.Bits == 0 {
 			if par := p.Model.Nodes[prev]; par != nil {
-				s.Bits = refchain.RequiredBits(par, minichain.PowBits)
+				t := s.Time
+				if t == 0 {
+					t = minichain.GenesisTime + 600*h
+				}
+				s.Bits = refchain.RequiredBitsNet(par, minichain.PowBits, params.Net, t)
 			}
 		}
 		b := minichain.Build(s)
